@@ -223,6 +223,7 @@ func C14(c *core.Ctx) {
 	c14Text(c)
 	c14Translations(c)
 	c14Mutations(c)
+	c14NotWholeCodons(c)
 }
 
 // c14Text: end to end from file text.
@@ -540,4 +541,62 @@ func c14Mutations(c *core.Ctx) {
 	}
 	c.Count("mutation_lists_compared", n)
 	c.Ob("R7/mutations-agree/same-records-from-both-descriptions", len(bad) == 0, funcPos(c, "pkg/variants", "GetVariantsPair"), "%s", first(bad, 3))
+}
+
+// c14NotWholeCodons: a CDS whose length after the codon_start / phase offset is not a whole number of codons (a gene
+// running off a contig end). Whatever is done with it - refused, or its whole codons used - is done the same under
+// both descriptions: one format accepting what the other refuses gives mutations under one and none under the other.
+func c14NotWholeCodons(c *core.Ctx) {
+	A := func(kv ...string) map[string]string {
+		m := map[string]string{}
+		for i := 0; i+1 < len(kv); i += 2 {
+			m[kv[i]] = kv[i+1]
+		}
+		return m
+	}
+	cases := []annoCase{
+		{name: "forward gene of 11 bases",
+			gff: []*eval.StructVal{mkGFFFeature(c, "CDS", 4, 14, "+", 0, A("ID", "c1", "Name", "g1"))},
+			gb:  []gbFeature{{"CDS", "4..14", "g1", 1}}},
+		{name: "forward gene of 10 bases after the frame offset",
+			gff: []*eval.StructVal{mkGFFFeature(c, "CDS", 4, 15, "+", 2, A("ID", "c1", "Name", "g1"))},
+			gb:  []gbFeature{{"CDS", "4..15", "g1", 3}}},
+		{name: "reverse gene of 10 bases",
+			gff: []*eval.StructVal{mkGFFFeature(c, "CDS", 5, 14, "-", 0, A("ID", "c1", "Name", "g1"))},
+			gb:  []gbFeature{{"CDS", "complement(5..14)", "g1", 1}}},
+		{name: "joined gene of 6+5 bases",
+			gff: []*eval.StructVal{mkGFFFeature(c, "CDS", 1, 6, "+", 0, A("ID", "c1", "Name", "g1")), mkGFFFeature(c, "CDS", 10, 14, "+", 0, A("ID", "c1", "Name", "g1"))},
+			gb:  []gbFeature{{"CDS", "join(1..6,10..14)", "g1", 1}}},
+	}
+	refused := func(o regionsOut) (bool, string) {
+		if o.err == "" {
+			return false, ""
+		}
+		if strings.HasPrefix(o.err, "UNRESOLVED") || (strings.HasPrefix(o.err, "undecided") && !strings.Contains(o.err, "panic") && !strings.Contains(o.err, "out of range")) {
+			return false, o.err
+		}
+		return true, ""
+	}
+	var bad []string
+	for _, ac := range cases {
+		g := evalRegionsGFF(c, ac.gff, annoRef)
+		b := evalRegionsGenbank(c, ac.gb, annoRef)
+		gr, gu := refused(g)
+		br, bu := refused(b)
+		if gu != "" || bu != "" {
+			c.Und("R8/not-whole-codons/"+ac.name, funcPos(c, "pkg/variants", "RegionsFromGFF"), "%s %s", gu, bu)
+			continue
+		}
+		switch {
+		case gr != br:
+			acc, rej, regs := "GenBank", "GFF", b.regions
+			if br {
+				acc, rej, regs = "GFF", "GenBank", g.regions
+			}
+			bad = append(bad, fmt.Sprintf("%s: the %s description is accepted (%v), the %s description of the same gene is refused", ac.name, acc, regs, rej))
+		case !gr && (!sameSet(g.regions, b.regions) || fmt.Sprint(g.inter) != fmt.Sprint(b.inter)):
+			bad = append(bad, fmt.Sprintf("%s: GFF gives %v intergenic %v; GenBank gives %v intergenic %v", ac.name, g.regions, g.inter, b.regions, b.inter))
+		}
+	}
+	c.Ob("R8/not-whole-codons/both-descriptions-treated-alike", len(bad) == 0, funcPos(c, "pkg/variants", "CDSRegion2fromGenbank"), "%s", first(bad, 3))
 }
